@@ -494,7 +494,7 @@ class _DesignInterp:
                             )
                     elements.append((("arr", name, k), name, inst, of, table, ev))
             else:  # instance bundle
-                b = _ga(type(inst), "bundle")
+                b = type(inst).bundle  # plain class attribute of the InstanceBundle sub-type
                 if not isinstance(b, Bundle):
                     raise InvalidDesign(f"{m.name}.{name}: instance bundle without a bundle type")
                 if _ga(b, "bundles"):
